@@ -124,7 +124,7 @@ def check_C10(tier):
     stride = 64 if tier == "quick" else 1
     res.evaluations += run_vh(["evt", "--in", beh, "--n", str(n), "--stride", str(stride), "--seed", str(seed())], trace,
                               timeout=7200)
-    for k, part in enumerate(split_file(trace, 2500)):
+    for k, part in enumerate(split_file(trace, 600)):
         validate_dec_trace(res, part, "C10_%d" % k, module="Trace_MainEvent", descriptor=evt_descriptor)
     kinds = set()
     with open(trace) as f:
@@ -231,7 +231,7 @@ def check_C09(tier):
         res.evaluations += run_vh(["crash", "--data", os.path.join(REPO, "physics", "data"), "--in", shapes, "--n", str(nrand),
                                    "--nsim", str(nsim), "--seed", str(seed())], trace, profile=prof, timeout=7200)
         res.profiles.add(prof)
-        for k, part in enumerate(split_file(trace, 3000)):
+        for k, part in enumerate(split_file(trace, 700)):
             validate_dec_trace(res, part, "C09_%s_%d" % (prof, k), profile=prof, module="Trace_MainEvent", descriptor=evt_descriptor)
         with open(trace) as f:
             for line in f:
